@@ -188,7 +188,14 @@ def _generalise_variant_params(it, st, frame, spec, tag):
     assigned = _assigned_names(st)
     for a in it.program.func(spec.variant).node.args.args:
         cur = frame.locals.get(a.arg)
-        if a.arg in assigned or not isinstance(cur, SInt):
+        if a.arg in assigned:
+            continue
+        if isinstance(cur, sym.SFloat) and isinstance(cur.ns, SInt):      # a deadline in float seconds
+            lo, hi = sym.rng(cur.ns)
+            ctx.fresh_n += 1
+            frame.locals[a.arg] = sym.SFloat(cur.nonneg, ns=ctx.input_int("loop.%s.%s.any!%d" % (tag, a.arg, ctx.fresh_n), lo, hi))
+            continue
+        if not isinstance(cur, SInt):
             continue
         lo, hi = sym.rng(cur)
         ctx.fresh_n += 1
